@@ -18,8 +18,9 @@ func init() {
 			"(R2) every file-system sink of the file-tree backend takes a path derived from buildFilePath's success result (or a Walk path below it), archive entries are created only behind the unpack-directory guard, EnsureAbsPath creates directories only behind its scope checks. " +
 			"(R3) the directory walk of the file-tree backend reads a visited file only behind the backend's scope predicate (or a well-formed root+separator prefix test) on that path; the internal DirStructure.ensure, which creates directories without any check, is called only by itself (towards the children) and by EnsureAbsPath (behind its checks). " +
 			"(R4) nothing case-folding (EqualFold, ToLower, ...) is statically reachable from the functions that decide scope (fstree isInScope/buildFilePath, EnsureAbsPath, unpackZipArchive, ScanStorage): paths are compared exactly. " +
+			"(R5) who may create links (os.Symlink / os.Link): only the atomic symlink helper and CreateSymlinks - archive extraction never creates a link. " +
 			"NOT decided: symlink traversal, platform path semantics, the run-time value of roots.",
-		Rules: []ruleFn{c18R1, c18R2, c18R3, c18R4},
+		Rules: []ruleFn{c18R1, c18R2, c18R3, c18R4, c18R5},
 	})
 }
 
